@@ -3,6 +3,7 @@
 from __future__ import annotations
 
 from .common import *  # noqa: F403
+from ..loader import parent
 from .. import emit
 from ..emit import ANY, DFA, Emitter, alt, opt, plus, seq, star
 from ..astutil import assignments_to
@@ -307,5 +308,43 @@ def r7_drain(chk: Check) -> None:
     shared.drain_before_leave_rule(chk, "C11.R7")
 
 
+def r8_consumer_total_over_statuses(chk: Check) -> None:
+    chk.rule("C11.R8", "EXHAUSTIVE(consumer of PhaseFinished(probing) over the statuses its producer emits): every Status the probing executor can put into PhaseFinished is handled by the CLI's probing arm - an `else: assert status == ERROR` must not be reachable with a status the producer really emits (a well-formed stream must not crash its consumer)", floor=1)
+    P = chk.project
+    ex = P.func("engine/phases/probes.py:execute")
+    emitted: set[str] = set()
+    for c in body_calls(ex):
+        if last_attr(c) == "PhaseFinished":
+            v = kwarg(c, "status")
+            if v is None:
+                continue
+            for t in canon(ex, v):
+                if t.startswith("Status."):
+                    emitted.add(t.split(".", 1)[1])
+    if not emitted:
+        chk.undecided("C11.R8", ex, "statuses emitted by the probing phase", "none recognised", ex.loc())
+        return
+    h = P.func("cli/commands/run/handlers/output.py:OutputHandler._on_phase_finished")
+    arm = next((t for t in walk_body(h.node) if isinstance(t, ast.If) and "PROBING" in unparse(t.test, 100)), None)
+    if arm is None:
+        chk.undecided("C11.R8", h, "probing arm of _on_phase_finished", "not found", h.loc())
+        return
+    handled: set[str] = set()
+    asserted: set[str] = set()
+    for x in ast.walk(arm):
+        if isinstance(x, ast.Compare) and len(x.ops) == 1 and isinstance(x.ops[0], (ast.Eq, ast.Is)) and unparse(x.left).endswith("event.status"):
+            d = dotted(x.comparators[0]) or ""
+            if d.startswith("Status."):
+                (asserted if isinstance(parent(x), ast.Assert) else handled).add(d.split(".", 1)[1])
+    construct = f"probing arm handles every emitted status {sorted(emitted)}"
+    missing = emitted - handled - asserted
+    if not missing or not asserted:
+        chk.ok("C11.R8", h, construct, f"handled {sorted(handled | asserted)}", h.loc(arm))
+    else:
+        chk.violation("C11.R8", h, construct,
+                      f"the probing executor emits PhaseFinished with status {sorted(missing)} (Ctrl-C while the probe is on the wire), but the consumer's fallthrough arm asserts `status == {sorted(asserted)[0]}`: the well-formed event makes the CLI die with `Internal Error / AssertionError` instead of reporting the interruption",
+                      h.loc(arm))
+
+
 def rules(tier: str) -> list:  # type: ignore[type-arg]
-    return [r1r2_grammar, r2b_state_machine_hooks, r3_ids, r4_status, r5_phase_dispatch, r7_drain]
+    return [r1r2_grammar, r2b_state_machine_hooks, r3_ids, r4_status, r5_phase_dispatch, r7_drain, r8_consumer_total_over_statuses]
